@@ -169,7 +169,9 @@ Section Runs.
     destruct (install_plan vvalid vle (si_allow s) (w_rec w) t) as [| |rec1 todo] eqn:Ep.
     - inversion H; subst. unfold ghost_after. cbn. split; [repeat split; assumption|]. intros; discriminate.
     - inversion H; subst. unfold ghost_after. cbn. split; [repeat split; assumption|]. intros; discriminate.
-    - set (env1 := env_install (si_index s) env0 todo) in *.
+    - destruct (existsb (fails s) todo).
+      { inversion H; subst. unfold ghost_after. cbn. split; [repeat split; assumption|]. intros; discriminate. }
+      set (env1 := env_install (si_index s) env0 todo) in *.
       destruct (install_finish (fun k => alookup k env1) (w_rec w) rec1 todo) as [r u] eqn:Ef.
       inversion H; subst w' o. clear H. unfold ghost_after. cbn [so_out so_env_after w_rec] in *.
       assert (Hi : install (si_allow s) (fun k => alookup k env1) (w_rec w) t = ODone todo r u).
@@ -330,8 +332,8 @@ Definition s_bar : str := [98; 97; 114]%N.
 Example history_instance :
   let w0 := {| w_env := [(s_foo, [49; 46; 48]%N)]; w_rec := [] |} in
   let files := [{| f_id := 0; f_dir := []; f_lines := [s_bar ++ [61; 61; 50; 46; 48]%N; s_foo] |}] in
-  let steps := [{| si_ext := []; si_allow := true; si_files := files; si_index := [] |};
-                {| si_ext := [(s_bar, Some [49; 46; 48]%N)]; si_allow := true; si_files := files; si_index := [] |}] in
+  let steps := [{| si_ext := []; si_allow := true; si_files := files; si_index := []; si_fail := [] |};
+                {| si_ext := [(s_bar, Some [49; 46; 48]%N)]; si_allow := true; si_files := files; si_index := []; si_fail := [] |}] in
   rec_ok (w_rec w0) [] /\ envs_clean (rk_valid ex_ranks) (rk_le ex_ranks) as_is w0 steps
   /\ map (fun o => (so_out o, so_rec o)) (run_steps (rk_valid ex_ranks) (rk_le ex_ranks) as_is w0 steps)
      = [(ODone [(s_bar, Some [50; 46; 48]%N)] [(s_bar, [50; 46; 48]%N)] true, [(s_bar, [50; 46; 48]%N)]);
